@@ -1,7 +1,7 @@
 from vlib import Obl, Prog
 
 def obligations(tier):
-    ns = [5, 6] if tier == "quick" else [5, 6, 7, 8]
+    ns = [4, 5] if tier == "quick" else [5, 6, 7]
     return [
         Obl("remote_blast", "blast.c",
             progs=[Prog("qmail-remote.c", nomain=True)],
